@@ -279,6 +279,8 @@ def run(ctx):
             why[r[1] if len(r) > 1 else r[0]] += 1
             ctx.broken_ties.append(("separate Core ≠ whole Core up to function order and bound-name renaming", f"{pid} order {order}: {r[:3]}"))
 
+    if outside:
+        ctx.notes.append(f"{sum(outside.values())} of {n_eq} Core pairs are outside the verified fragment (validate rejects, the structural comparison accepts): {dict(outside)}")
     ctx.violations.sort(key=lambda v: len(v[2].get("src") or "x" * 10**6))
     if ctx.replay:
         try:
